@@ -132,8 +132,8 @@ def gen_cases(tier, seed):
         for a in bounds:
             for b in bounds:
                 for st in (None, 1, -1, 2, -2, 3, -3):
-                    if sg and (a is not None and b is not None) and (a + b) % 2:
-                        continue                      # thin the signed copies
+                    if sg and not thorough and (w != 2 or (a is not None and b is not None and (a + b) % 2)):
+                        continue                      # quick tier: signed operands only at width 2, thinned
                     one(["d_key", ["s", 0], [a, b, st]])
         for n in range(-w - 2, 0):
             one(["d_shl", ["s", 0], n])
@@ -150,11 +150,11 @@ def gen_cases(tier, seed):
                 cases.append({"stream": "exd", "sigs": [sh, [2, False]], "e": ["d_wsel", ["s", 0], ["s", 1], pw],
                               "stims": [[x, y] for x in all_values(*sh) for y in range(4)]})
     # the reading of the Python builtins slice.indices / range used by Value.__getitem__ (model vs CPython itself)
-    for n in range(0, 6):
+    for n in range(0, 5 if not thorough else 8):
         bounds = [None] + list(range(-n - 2, n + 3))
         for a in bounds:
             for b in bounds:
-                for st in (None, 0, 1, -1, 2, -2, 3, -3, 4, 7, -7):
+                for st in ((None, 0, 1, -1, 2, -2, 3, -3) if not thorough else (None, 0, 1, -1, 2, -2, 3, -3, 4, 7, -7)):
                     cases.append({"stream": "pyb", "k": "pyb", "len": n, "key": [a, b, st]})
     for _ in range(300 if not thorough else 5000):
         n = rng.randrange(0, 70)
